@@ -151,7 +151,9 @@ def run(facts, rep, tier):
     # selector pairs state with function and attribute
     gsa = [x for x in c.user_fns() if x["fn"].endswith("generate_serde_attr")]
     if rep.floor("C18.T1", "serde attribute selector", len(gsa), 1):
-        m = [n for n, _ in nodes(gsa[0]["body"], "match") if n.get("src") == "normal" and n["scrut"].get("k") == "tup"][0]
+        ms_ = [n for n, _ in nodes(gsa[0]["body"], "match") if n.get("src") == "normal" and n["scrut"].get("k") == "tup"]
+        rep.floor("C18.T1", "selector table (match on (state, type details))", len(ms_), 1)
+        m = ms_[0] if ms_ else {"arms": []}
         for a in m["arms"]:
             p = psrc(a["pat"])
             state = re.search(r"StructPropertyState::(\w+)", p).group(1)
